@@ -45,8 +45,16 @@ def new_handler(repo, interp, cname, args=(), kwargs=None):
     return interp.apply(ClassRef(cls), list(args), dict(kwargs or {}))
 
 
-def wire_of(msg):
+def wire_of(msg, interp=None):
+    """content of a built message: the stored content, else what the (public) content property computes, else the
+    stored raw datagram"""
     c = msg.attrs.get("_content")
+    if c is None and interp is not None and getattr(msg, "cls", None) is not None:
+        try:
+            interp.steps = 0
+            c = interp.getattr(msg, "content")
+        except (PyRaise, Undecided):
+            c = None
     if c is None:
         c = msg.attrs.get("_send_bytes")
     return c
@@ -177,48 +185,184 @@ def can_handle(repo, interp, c, obj, wire):
     return r
 
 
+STR_SAMPLES = ("", "SIM-0123456789", "a|b\n<DATAS>\xff,\x00 ")           # names: separators, tag-like text, every latin-1 range
+BYTES_SAMPLES = (b"", b"\x00\n</DATAS>|\xff", bytes(range(256)))
+
+
+def _param_kinds(bfi, params):
+    kinds = {}
+    ann = {p.arg: (ast.unparse(p.annotation) if p.annotation is not None else "") for p in bfi.node.args.args}
+    for p in params:
+        a = ann.get(p, "")
+        kinds[p] = "str" if a in ("str", "Optional[str]") else "bytes" if a in ("bytes", "bytearray") else "int"
+    return kinds
+
+
 def auto_round_trip(ctx, repo, interp, classes, b):
-    """-> None when the generic round trip of an untabled builder is established, else the reason it is not"""
+    """-> None when the generic round trip of an untabled builder is established, else the reason it is not.
+    Integer fields are symbolic 8-bit values; text and byte-string fields (by annotation, or when the builder treats a
+    field as text) take sample values with separators, tag-like text and every byte range."""
     cname, bname = b
     bfi = repo.method(cname, bname)
     a = bfi.node.args
     if a.vararg is not None or a.posonlyargs:
         return "unusual signature"
     params = [p.arg for p in a.args[: len(a.args) - len(a.defaults)]]
-    args = [F(f"{bname}_{p}", 8) for p in params]
-    try:
-        msg = build_message(repo, interp, cname, bname, args)
-        wire = wire_of(msg)
-        if wire is None:
-            return "the builder produced no content"
-        wire = SymBytes.of(wire)
-        if wire.concrete() is not None:
-            wire = wire.concrete()
-        accept = []
-        for c in classes:
-            if c.short in CATCH_ALL:
-                continue
-            if can_handle(repo, interp, c, fresh_handler(repo, interp, c), wire):
-                accept.append(c.short)
-        if accept != [cname]:
-            return f"the message is claimed by {accept or 'nobody'}"
-        sock = Obj(None, {"queue_send": Native(lambda a_, k_: None), "get_and_increment_sequence_counter": Native(lambda a_, k_: F("ackseq", 8))}, name="socket")
-        rx = fresh_handler(repo, interp, repo.cls(cname), sock)
-        interp.steps = 0
-        interp.call(repo.method(cname, "handle"), rx, [wire, SENDER])
-    except (PyRaise, Undecided) as e:
-        return f"interpretation stopped: {e}"
-    for p in params:
-        found = False
-        for attr in list(rx.attrs):
-            ok, _ = compare((f"{bname}_{p}", 8), rx.attrs[attr])
-            if ok:
-                found = True
-                break
-        if not found:
-            return f"parameter `{p}` is not recovered by the decoder"
-    ctx.ob("R2", f"{cname}.{bname}[auto]::round-trip", True, "", sample={"rule": "R2", "builder": f"{cname}.{bname}", "mode": "auto-derived", "fields": params})
+    kinds = _param_kinds(bfi, params)
+    why = _auto_round_trip(ctx, repo, interp, classes, b, params, kinds)
+    if why is not None and "attribute" in why and " of BV" in why and all(k == "int" for k in kinds.values()):
+        # an unannotated field the builder encodes / joins: text, else a byte string
+        for alt in ("str", "bytes"):
+            for p in params:
+                w2 = _auto_round_trip(ctx, repo, interp, classes, b, params, dict(kinds, **{p: alt}))
+                if w2 is None:
+                    return None
+    return why
+
+
+def _auto_round_trip(ctx, repo, interp, classes, b, params, kinds):
+    cname, bname = b
+    rounds = max([len(STR_SAMPLES) if k == "str" else len(BYTES_SAMPLES) if k == "bytes" else 1 for k in kinds.values()] or [1])
+    for i in range(rounds):
+        want = {}
+        for p in params:
+            k = kinds[p]
+            want[p] = STR_SAMPLES[i % len(STR_SAMPLES)] if k == "str" else BYTES_SAMPLES[i % len(BYTES_SAMPLES)] if k == "bytes" else F(f"{bname}_{p}", 8)
+        try:
+            msg = build_message(repo, interp, cname, bname, [want[p] for p in params])
+            wire = wire_of(msg, interp)
+            if wire is None:
+                return "the builder produced no content"
+            wire = SymBytes.of(wire)
+            if wire.concrete() is not None:
+                wire = wire.concrete()
+            accept = []
+            for c in classes:
+                if c.short in CATCH_ALL:
+                    continue
+                if can_handle(repo, interp, c, fresh_handler(repo, interp, c), wire):
+                    accept.append(c.short)
+            if accept != [cname]:
+                return f"the message is claimed by {accept or 'nobody'}"
+            sock = Obj(None, {"queue_send": Native(lambda a_, k_: None), "get_and_increment_sequence_counter": Native(lambda a_, k_: F("ackseq", 8))}, name="socket")
+            rx = fresh_handler(repo, interp, repo.cls(cname), sock)
+            interp.steps = 0
+            interp.call(repo.method(cname, "handle"), rx, [wire, SENDER])
+        except (PyRaise, Undecided) as e:
+            return f"interpretation stopped: {e}"
+        for p in params:
+            found = False
+            for attr in list(rx.attrs):
+                if kinds[p] == "int":
+                    ok, _ = compare((f"{bname}_{p}", 8), rx.attrs[attr])
+                else:
+                    got = rx.attrs[attr]
+                    ok = type(got) is type(want[p]) and got == want[p]
+                if ok:
+                    found = True
+                    break
+            if not found:
+                return f"parameter `{p}` ({kinds[p]}; sample {want[p]!r}) is not recovered by the decoder"
+    ctx.ob("R2", f"{cname}.{bname}[auto]::round-trip", True, "", sample={"rule": "R2", "builder": f"{cname}.{bname}", "mode": "auto-derived", "fields": params, "kinds": kinds})
     return None
+
+
+def _field_of(v):
+    """(name, bits) when v is a plain symbolic field as field()/sfield() make them"""
+    if not isinstance(v, BV):
+        return None
+    b0 = v.bits[0]
+    if b0.top or len(b0.syms) != 1 or not b0.syms[0].endswith("[0]"):
+        return None
+    name = b0.syms[0][:-3]
+    n = 0
+    while n < len(v.bits) and v.bits[n].is_sym(f"{name}[{n}]"):
+        n += 1
+    return (name, n)
+
+
+def _fields_in(x, out):
+    f = _field_of(x)
+    if f:
+        out.setdefault(f[0], f[1])
+    elif isinstance(x, (list, tuple)):
+        for y in x:
+            _fields_in(y, out)
+    elif isinstance(x, SymBytes) and x.concrete() is None:
+        raise Undecided("symbolic byte string in the arguments")
+    return out
+
+
+def _subst(x, val):
+    f = _field_of(x)
+    if f:
+        return val[f[0]]
+    if isinstance(x, tuple):
+        return tuple(_subst(y, val) for y in x)
+    if isinstance(x, list):
+        return [_subst(y, val) for y in x]
+    return x
+
+
+def _sweep_values(bits):
+    return list(range(256)) if bits <= 8 else [0, 1, 255, 256, 0x1234, 0x7FFF, 0x8000, 0xFFFE, 0xFFFF]
+
+
+def concrete_sweep(ctx, repo, interp, classes, row, why):
+    """A builder or decoder whose control flow depends on a field's value (`mode or DEFAULT`, `if seq:`) cannot be
+    carried through on symbolic fields; the round trip is then decided on concrete values instead: every value of each
+    8-bit field (boundary and sample values of a 16-bit one) while the other fields hold distinct samples."""
+    cname, builder, args, expect, desc = row
+    key = f"{cname}.{builder}[{desc}]"
+    bfi = repo.method(cname, builder)
+    try:
+        fields = _fields_in(args, {})
+    except Undecided as e:
+        raise AnalysisError(f"{key}: cannot interpret symbolically ({why}) nor sweep concretely ({e})")
+    if not fields:
+        raise AnalysisError(f"{key}: cannot interpret: {why}")
+    base = {n: (0x5A + 17 * i) & ((1 << b) - 1) for i, (n, b) in enumerate(sorted(fields.items()))}
+    n = 0
+    bad = []
+    for fname, bits in sorted(fields.items()):
+        for v in _sweep_values(bits):
+            val = dict(base, **{fname: v})
+            n += 1
+            try:
+                msg = build_message(repo, interp, cname, builder, _subst(args, val))
+                wire = wire_of(msg, interp)
+                wire = SymBytes.of(wire).concrete() if wire is not None else None
+                if wire is None:
+                    bad.append((fname, v, "no concrete content"))
+                    continue
+                accept = [c.short for c in classes if c.short not in CATCH_ALL and can_handle(repo, interp, c, fresh_handler(repo, interp, c), wire)]
+                if cname not in accept or [a for a in accept if a != cname and frozenset((a, cname)) not in OVERLAP_OK]:
+                    bad.append((fname, v, f"claimed by {accept or 'nobody'}"))
+                    continue
+                sock = Obj(None, {"queue_send": Native(lambda a_, k_: None), "get_and_increment_sequence_counter": Native(lambda a_, k_: 7)}, name="socket")
+                rx = fresh_handler(repo, interp, repo.cls(cname), sock)
+                interp.steps = 0
+                interp.call(repo.method(cname, "handle"), rx, [wire, SENDER])
+            except PyRaise as e:
+                bad.append((fname, v, f"raises {e.what}"))
+                continue
+            except Undecided as e:
+                raise AnalysisError(f"{key}: concrete sweep {fname}={v}: {e}")
+            for attr, exp in expect.items():
+                got = read_field(interp, rx, attr)
+                if isinstance(exp, tuple) and len(exp) == 2 and isinstance(exp[0], str) and isinstance(exp[1], int):
+                    want = val[exp[0]]
+                elif isinstance(exp, tuple):
+                    continue
+                else:
+                    want = exp
+                if not (got == want and isinstance(got, (int, bool, bytes, str))):
+                    bad.append((fname, v, f"`{attr}` decoded as {got!r}, built from {want!r}"))
+    ctx.count(f"R2:concrete_sweep:{cname}.{builder}", n)
+    ctx.ob("R2", f"{key}::concrete-sweep", not bad,
+           f"{desc}: {cname}.{builder} -> handle does not round-trip for {len(bad)} of {n} swept field valuations, e.g. "
+           + "; ".join(f"{f}={v}: {w}" for f, v, w in bad[:3]), bfi.loc,
+           sample={"rule": "R2", "message": desc, "mode": "concrete sweep", "valuations": n, "failing": [list(map(str, b)) for b in bad[:5]]})
 
 
 def round_trips(ctx, repo):
@@ -267,8 +411,11 @@ def round_trips(ctx, repo):
             ctx.ob("R2", f"{key}::builds", False, f"{cname}.{builder} raises {e.what} for in-range field values", bfi.loc)
             continue
         except Undecided as e:
+            if "truth" in str(e):
+                concrete_sweep(ctx, repo, interp, classes, (cname, builder, args, expect, desc), f"the builder: {e}")
+                continue
             raise AnalysisError(f"{key}: cannot interpret the builder: {e}")
-        wire = wire_of(msg)
+        wire = wire_of(msg, interp)
         if wire is None:
             ctx.ob("R2", f"{key}::builds", False, f"{cname}.{builder} produced no content", bfi.loc)
             continue
@@ -313,6 +460,9 @@ def round_trips(ctx, repo):
             ctx.ob("R2", f"{key}::decodes", False, f"{cname}.handle raises {e.what} on the message built by {builder} ({desc})", repo.method(cname, "handle").loc)
             continue
         except Undecided as e:
+            if "truth" in str(e):
+                concrete_sweep(ctx, repo, interp, classes, (cname, builder, args, expect, desc), f"the decoder: {e}")
+                continue
             raise AnalysisError(f"{key}: cannot interpret the decoder: {e}")
         for attr, exp in expect.items():
             got = read_field(interp, rx, attr)
@@ -349,7 +499,7 @@ def round_trips(ctx, repo):
         for _c, builder, args, expect, desc in rows:
             try:
                 msg = build_message(repo, interp, cname, builder, args)
-                w = wire_of(msg)
+                w = wire_of(msg, interp)
                 if w is None:
                     continue
                 w = SymBytes.of(w)
@@ -518,6 +668,25 @@ def framing(ctx, repo):
     ctx.ob("R4", "handle::strips-packet-tags", bool(sliced) and SymBytes.of(sliced[0]).cells == [Blob("inner")],
            f"handle passes {sliced[0] if sliced else None!r} to the extractor instead of the bytes between <PACKT> and </PACKT>", hfi.loc)
     # swap: reply with parms=<received parms> => SRCCN = received DESCN, DESCN = received SRCCN  (follows from the two facts above)
+    # end to end, nothing hooked: the frame send_bytes built, handed to a fresh handler's handle(), gives back the
+    # identifiers and - for ANY payload - exactly the payload (the regex is applied symbolically, vlib.symregex; strip()
+    # and friends on a payload are adversarial: a payload byte at the frontier is lost)
+    rx2 = new_handler(repo, interp, cname)
+    try:
+        interp.steps = 0
+        interp.call(repo.method(cname, "handle"), rx2, [sb, ("1.2.3.4", 99)])
+        p2 = rx2.attrs.get("_parms")
+        got = (p2[2] if isinstance(p2, tuple) and len(p2) == 4 else None, p2[3] if isinstance(p2, tuple) and len(p2) == 4 else None, read_field(interp, rx2, "_packet_content"))
+    except PyRaise as e:
+        got = (f"raises {e.what}",) * 3
+    except Undecided as e:
+        raise AnalysisError(f"{cname}.handle on the frame send_bytes built: {e}")
+    want3 = (SymBytes.blob("P3"), SymBytes.blob("P2"), SymBytes.blob("payload"))
+    for nm, g, w in zip(("source-identifier", "destination-identifier", "payload"), got, want3):
+        ctx.ob("R4", f"frame-round-trip::{nm}", isinstance(g, SymBytes) and g.cells == w.cells,
+               f"a frame built by send_bytes and handed to handle() gives back {g!r} as its {nm}, expected exactly {w!r}: "
+               f"for some payload / identifier bytes the receiver sees something other than what was framed", hfi.loc,
+               sample={"rule": "R4", "part": nm, "decoded": repr(g)})
 
     # R4 (i) + R5: the regex
     efi = repo.method(cname, "_extract_packet_parts")
@@ -690,9 +859,18 @@ def codec(ctx, repo):
         for node in walk_no_nested(fi.node):
             if isinstance(node, ast.Call) and call_name(node) in ("encode", "decode") and isinstance(node.func, ast.Attribute):
                 n += 1
-                a = [ast.unparse(x) for x in node.args] + [ast.unparse(k.value) for k in node.keywords]
-                ctx.ob("R7", f"{fi.qual}::{call_name(node)}-{_nth(fi, node)}", any(x.endswith("MESSAGE_ENCODING") for x in a),
-                       f"{fi.qual}: `{ast.unparse(node)[:70]}` does not use GeckoConstants.MESSAGE_ENCODING (default utf-8 cannot carry arbitrary bytes)", loc(fi, node))
+                # the codec named at the site, by value (the shared constant, a module constant of its own, a literal):
+                # what matters is that every byte value is carried, not how the name is spelled
+                vals = [repo.try_fold(x, fi.mod, fi.cls) for x in list(node.args)[:1] + [k.value for k in node.keywords if k.arg == "encoding"]]
+                total = False
+                for v in vals:
+                    try:
+                        total = isinstance(v, str) and codecs.lookup(v).name in ("iso8859-1", "latin-1", "latin1")
+                    except LookupError:
+                        total = False
+                ctx.ob("R7", f"{fi.qual}::{call_name(node)}-{_nth(fi, node)}", total,
+                       f"{fi.qual}: `{ast.unparse(node)[:70]}` does not name a codec that carries every byte value (latin-1, as GeckoConstants.MESSAGE_ENCODING; "
+                       f"found {vals!r}; the default utf-8 cannot carry arbitrary bytes)", loc(fi, node))
     ctx.floor("R7", "encode/decode sites", n, 8)
 
 
@@ -759,7 +937,7 @@ def check(ctx):
     ctx.rule("R4", "reply addressing: send_bytes puts parms[3] in SRCCN and parms[2] in DESCN; handle stores (ip, port, SRCCN group, DESCN group): a reply built from received parms goes back to the sender with identifiers swapped")
     ctx.rule("R5", "framing regex unambiguous: DOTALL; every capture group followed by another unconstrained group is lazy/excluding; last group greedy")
     ctx.rule("R6", "text parts: fixed-arity unpack of split needs maxsplit; HELLO replies with '|' / latin-1 names decode; FILES reply of every shipped platform x cfg x log names existing modules")
-    ctx.rule("R7", "codec: MESSAGE_ENCODING is latin-1 and every encode/decode in the library names it")
+    ctx.rule("R7", "codec: MESSAGE_ENCODING is latin-1 and every encode/decode in the library names a codec that carries every byte value (folded by value: the shared constant, a module constant or a literal)")
     verb_table(ctx, repo)
     round_trips(ctx, repo)
     framing(ctx, repo)
